@@ -1,6 +1,6 @@
 (* C20 - finite model of the object state of the three coroutine kinds of
-   CPython 3.12.1 (native coroutine cr_*, generator-based coroutine gi_*,
-   async generator ag_*), the attributes Python code can read, the asynkit
+   CPython 3.12.1 (native coroutine `cr_`, generator-based coroutine `gi_`,
+   async generator `ag_`), the attributes Python code can read, the asynkit
    helpers coro_is_new / coro_is_suspended / coro_is_finished as boolean
    functions of those attributes, and the transition function for every drive
    step.  No proofs here (CoroStateProofs.v); the interpreter that is compared
@@ -210,3 +210,8 @@ Definition closure : list ostate := closure_from 12 [init KCoro; init KGen; init
 
 Definition closed_under_steps (l : list ostate) : bool :=
   forallb (fun s => forallb (fun s' => mem_state s' l) (successors s)) l.
+
+(* the states an object can be in: what the drive steps produce from a new object *)
+Inductive reachable : ostate -> Prop :=
+| reach_init : forall k, reachable (init k)
+| reach_step : forall s e s', reachable s -> apply_ev s e = Some s' -> reachable s'.
